@@ -161,7 +161,7 @@ func runMProp(pid, corr, rule string, a Args, gen func(tier string, rng *rand.Ra
 	var stats map[string]interface{}
 	var ms []mCase
 	p := Prop[gCase]{
-		ID: pid, Require: gRequire, CaseType: "gcase", Mismatch: "failing_from (gcase_check env0)", Corr: corr, Rule: rule, Shard: 120,
+		ID: pid, Require: gRequireT, CaseType: "gcase", Mismatch: "failing_from (gcase_check_t env0)", Corr: corr, Rule: rule, Shard: 120,
 		Gen: func(tier string, rng *rand.Rand) []gCase {
 			ms = gen(tier, rng)
 			out := make([]gCase, len(ms))
